@@ -586,6 +586,9 @@ func runModel(sum *lib.Summary, rng *lib.Rng) {
 		toks, ok := toModelTokens(printed)
 		if !ok {
 			sum.Count("model: printed text has unmodelled tokens")
+			if len(sum.Samples) < 8 {
+				sum.Samples = append(sum.Samples, map[string]string{"unmodelled_printed": printed})
+			}
 			continue
 		}
 		re := "None"
